@@ -500,6 +500,15 @@ def warmup(mod=None):
     import inspect
     import sigtools
     from sim import worlds, faults
+    # everything the generated worlds / histories import: sys.modules must not grow during the
+    # runs (inspect.getmodule walks it, so the number of inspect.py lines executed would depend
+    # on what ran before)
+    for name in ('unittest.mock', 'dataclasses', 'attr', 'collections.abc', 'contextlib', 'typing', 'builtins',
+                 'copy', 'linecache', 'types', 'weakref', 'itertools', 'enum', 'abc', 'tokenize', 'ast'):
+        try:
+            __import__(name)
+        except ImportError:
+            pass
     from sim import sutstate as _sut
     _sut.capture(baseline='import')     # before anything is retrieved in this process
     for t in sorted(worlds.TEMPLATES):
